@@ -26,6 +26,7 @@ pub fn pk_from_c4(p: &c4::Packet) -> Pk {
             sp: a.session_present,
             code: if a.code == c4::ConnectReturnCode::Success { 0 } else { 5 },
             recv_max: None,
+            server_ka: None,
         },
         c4::Packet::Publish(p) => Pk::Publish {
             qos: p.qos as u8,
